@@ -426,6 +426,8 @@ def run(run):
             run.broke('FreeList::insert call sites not found [%s]' % cfg)
         if unlink.check_unlink(run, db) < 6:
             run.broke('free list functions not found [%s]' % cfg)
+        if unlink.check_cursor_reset(run, db) < 3:
+            run.broke('ordered list constructors / swap not found [%s]' % cfg)
         from rules import c02
         if c02.check_run(run, db) < 2:
             run.broke('array search functions not found [%s]' % cfg)
